@@ -131,9 +131,9 @@ Definition predict (chain : list (N * N))
   let '(t1, s1, calls) := sim (3 * k + 12) k t0 background [] in
   let hviews := match t_h t1 with HPending => [view_of k s1 case_sid] | _ => [] end in
   let '(t2, s2) := step_h t1 s1 in
-  (* the late Joins: enter, then AddAll *)
-  let '(t3, s3) := step_joins (fun _ => true) t2 s2 in
-  let '(t4, s4) := step_joins (fun _ => true) t3 s3 in
+  (* the late Joins, one after the other (each: enter, then AddAll) *)
+  let '(t4, s4) := Nat.iter (2 * length (t_js t2) + 2)
+                            (fun ts => step_joins (fun _ => true) (fst ts) (snd ts)) (t2, s2) in
   let '(resp, m) :=
     match packets case_sid (trace s4) with
     | [PktConnect x] => (if N.eqb x case_sid then 0 else 2, (0, 0, 0))
